@@ -1,87 +1,8 @@
 // C18 — tlx::StringView answers every query exactly like std::string_view.
 // Oracle: the same call on std::string_view over the same bytes.
-#include "../engine/pbt.hpp"
+#include "C18_common.hpp"
 
-#include <memory>
-#include <stdexcept>
-#include <string>
-#include <string_view>
-#include <tlx/container/string_view.hpp>
 
-namespace {
-
-using SV = tlx::StringView;
-using STD = std::string_view;
-static const size_t npos = SV::npos;
-
-// alphabet with NUL, high bytes and case pairs
-static const unsigned char ALPHA[] = {0x00, 'a', 'b', 'B', 0x7F, 0x80, 0xFF};
-
-//! exact-size heap buffer so that any read past size() hits an ASan red zone
-struct Buf {
-    std::unique_ptr<char[]> p;
-    size_t n = 0;
-    Buf() {}
-    explicit Buf(const std::string& s, bool terminate = false) : p(new char[s.size() + (terminate ? 1 : 0) + 0]), n(s.size()) {
-        if (n) memcpy(p.get(), s.data(), n);
-        if (terminate) p[n] = 0;
-    }
-    const char* data() const { return p.get(); }
-};
-
-std::string gen_str(pbt::Source& src, size_t maxlen, bool no_nul) {
-    size_t n = (size_t)src.range(0, (int64_t)maxlen);
-    std::string s;
-    for (size_t i = 0; i < n; ++i) {
-        unsigned char c = ALPHA[src.range(0, sizeof(ALPHA) - 1)];
-        if (no_nul && c == 0) c = 'a';
-        s += (char)c;
-    }
-    return s;
-}
-
-size_t gen_pos(pbt::Source& src, size_t len) {
-    // 0..len+2, npos, npos-1
-    int64_t r = src.range(0, (int64_t)len + 4);
-    if (r <= (int64_t)len + 2) return (size_t)r;
-    return r == (int64_t)len + 3 ? npos : npos - 1;
-}
-
-struct Res {
-    bool threw = false;
-    long long v = 0;
-    std::string s;
-    bool operator==(const Res& o) const { return threw == o.threw && (threw || (v == o.v && s == o.s)); }
-};
-std::ostream& operator<<(std::ostream& os, const Res& r) {
-    if (r.threw) return os << "throws out_of_range";
-    os << r.v;
-    if (!r.s.empty()) os << " " << pbt::show_bytes(r.s);
-    return os;
-}
-int sgn(int x) { return x < 0 ? -1 : x > 0 ? 1 : 0; }
-
-template <class F>
-Res eval(F f) {
-    Res r;
-    try {
-        f(r);
-    } catch (const std::out_of_range&) {
-        r.threw = true;
-        r.v = 0;
-        r.s.clear();
-    }
-    return r;
-}
-
-#define QUERY(NAME, TLX_EXPR, STD_EXPR)                                                          \
-    {                                                                                            \
-        qname = NAME;                                                                            \
-        rt = eval([&](Res& r) { TLX_EXPR; });                                                    \
-        rs = eval([&](Res& r) { STD_EXPR; });                                                    \
-    }
-
-} // namespace
 
 PBT_PROPERTY(string_view) {
     int q = (int)src.range(0, 79); // selectors first: short buffers must still reach every query
